@@ -386,6 +386,25 @@ func main() {
 				cf = append(cf, propFail{"export-error-" + shape, "ExportToMarkdown returned: " + xerr.Error()})
 			}
 		}
+		// the SECOND export of the same network in this process is judged like the first
+		if pan == nil {
+			text2, xerr2, pan2 := exportMD(b.Net)
+			switch {
+			case pan2 != nil:
+				cf = append(cf, propFail{"second-export-panic", fmt.Sprintf("the second ExportToMarkdown of the unchanged network panicked: %v", pan2)})
+			case (xerr2 == nil) != (xerr == nil):
+				cf = append(cf, propFail{"second-export-error", fmt.Sprintf("first export: %v, second export: %v", xerr, xerr2)})
+			default:
+				ignore, md2 := map[string]int{}, 0
+				for _, x := range checkProperty(b.Net, parseMarkdown(text2), ignore, &md2) {
+					cf = append(cf, propFail{"second-export-" + x.Kind, "second export of the unchanged network: " + x.Detail})
+				}
+				if text2 != text && len(cf) == 0 {
+					cf = append(cf, propFail{"second-export-differs", "the second ExportToMarkdown of the unchanged network differs from the first"})
+				}
+				kinds["second-export-judged"]++
+			}
+		}
 		cf = append(cf, callStrings(b, kinds)...)
 		cf = append(cf, checkEnumAttributes(sp, b, kinds)...)
 		if maxDepth > maxDepthAll {
